@@ -2302,12 +2302,6 @@ impl Zeroconf {
         intf: &MyIntf,
         sock: &PktInfoUdpSocket,
     ) -> Vec<u8> {
-        // Nothing to take back where the service was never announced, e.g. still probing:
-        // a goodbye there could flush the records of the name's rightful owner.
-        if info.get_status(intf.index) != ServiceStatus::Announced {
-            return vec![];
-        }
-
         let is_ipv4 = sock.domain() == Domain::IPV4;
 
         // Take back the names this interface announced: conflict resolution may have
@@ -2319,6 +2313,17 @@ impl Zeroconf {
         };
         let fullname = resolve(info.get_fullname());
         let hostname = resolve(info.get_hostname());
+
+        // Nothing to take back where the service was never announced, e.g. still probing:
+        // a goodbye there could flush the records of the name's rightful owner.
+        // (A re-registration probes again while the records of the earlier one are active.)
+        let announced = info.get_status(intf.index) == ServiceStatus::Announced
+            || registry.is_some_and(|registry| {
+                registry.active.contains_key(&fullname) && registry.probing.contains_key(&fullname)
+            });
+        if !announced {
+            return vec![];
+        }
 
         let mut out = DnsOutgoing::new(FLAGS_QR_RESPONSE | FLAGS_AA);
         out.add_answer_at_time(
